@@ -1051,3 +1051,78 @@ def pp_body(body, out=sys.stdout, live_only=True):
             print('    assert(%s == %s, %s) -> bb%d' % (pp_op(body, t['cond']), t['expected'], t['kind'], t['target']), file=out)
         else:
             print('    %s' % k, file=out)
+
+
+# ----------------------------------------------------------------------------- position-level paths
+
+
+class Pos:
+    """Path queries at statement granularity. A position is (bb, k): k = statement index,
+    or len(statements) for the terminator ('term' accepted as alias)."""
+
+    def __init__(self, body):
+        self.b = body
+
+    def norm(self, p):
+        bb, k = p
+        if k == 'term':
+            k = len(self.b.blocks[bb]['st'])
+        return (bb, k)
+
+    def term_pos(self, bb):
+        return (bb, len(self.b.blocks[bb]['st']))
+
+    def reach(self, start, avoid_pos=(), avoid_edges=(), include_start=False):
+        """Positions reachable from `start` (exclusive unless include_start) without entering
+        an avoided position or taking an avoided block edge."""
+        b = self.b
+        avoid_pos = set(self.norm(p) for p in avoid_pos)
+        avoid_edges = set(avoid_edges)
+        start = self.norm(start)
+        seen = set()
+        dq = deque()
+
+        def push(p):
+            if p in seen or p in avoid_pos:
+                return
+            seen.add(p)
+            dq.append(p)
+
+        def succ(p):
+            bb, k = p
+            n = len(b.blocks[bb]['st'])
+            if k < n:
+                yield (bb, k + 1)
+            else:
+                for s in b.succs(bb):
+                    if (bb, s) not in avoid_edges:
+                        yield (s, 0)
+
+        if include_start:
+            push(start)
+        else:
+            for s in succ(start):
+                push(s)
+        while dq:
+            p = dq.popleft()
+            for s in succ(p):
+                push(s)
+        return seen
+
+    def every_path_passes(self, src, dst, via_pos=(), via_edges=(), from_entry=False):
+        """Every path from src (exclusive) to dst passes one of via_pos / via_edges.
+        from_entry: src is the function entry (inclusive)."""
+        dst = self.norm(dst)
+        via = set(self.norm(p) for p in via_pos)
+        if dst in via:
+            return True
+        if from_entry:
+            if (0, 0) in via:
+                return True
+            r = self.reach((0, 0), avoid_pos=via, avoid_edges=via_edges, include_start=True)
+        else:
+            r = self.reach(src, avoid_pos=via, avoid_edges=via_edges)
+        return dst not in r
+
+    def can_reach(self, src, dst, avoid_pos=(), avoid_edges=()):
+        return self.norm(dst) in self.reach(src, avoid_pos=avoid_pos, avoid_edges=avoid_edges)
